@@ -237,6 +237,25 @@ func (h *hist) quiescentMonitors() {
 		}
 		for _, d := range downs {
 			id := num(d.Id)
+			// what the subscriber was last OFFERED is what it is given: a
+			// renegotiation may be deferred only while an offer is unanswered,
+			// and otherwise the last offer sent for the stream carries exactly
+			// the tracks of the down connection
+			h.check("offer_carries_selection")
+			if d.Negotiation > 0 && !d.HaveLocal {
+				h.fail("offer_carries_selection", fmt.Sprintf("at quiescence client %d, stream %d: a renegotiation is marked as deferred but no offer is outstanding: the subscriber is never offered tracks %v",
+					m.h, id, d.TrackKinds))
+			} else if d.Negotiation == 0 {
+				if sdp, ok := m.lastSDP[id]; ok {
+					offered := activeKinds(sdp)
+					given := append([]string{}, d.TrackKinds...)
+					sort.Strings(given)
+					if fmt.Sprint(offered) != fmt.Sprint(given) {
+						h.fail("offer_carries_selection", fmt.Sprintf("at quiescence client %d, stream %d: the last offer sent carries %v, the down connection has tracks %v",
+							m.h, id, offered, given))
+					}
+				}
+			}
 			if h.collision[id] {
 				h.note("monitor-skipped-collision")
 				continue
@@ -361,4 +380,29 @@ func reqmapString(m *cli) string {
 		out = append(out, fmt.Sprintf("%d:%s", k, reqString(true, m.reqmap[k])))
 	}
 	return "{" + strings.Join(out, ";") + "}"
+}
+
+// activeKinds lists (sorted) the kinds of the media sections of an SDP offer
+// that send something (a=sendonly / a=sendrecv, port not 0).
+func activeKinds(sdp string) []string {
+	var out []string
+	kind, sending, rejected := "", false, false
+	flush := func() {
+		if kind != "" && sending && !rejected {
+			out = append(out, kind)
+		}
+	}
+	for _, l := range strings.Split(strings.ReplaceAll(sdp, "\r", ""), "\n") {
+		switch {
+		case strings.HasPrefix(l, "m="):
+			flush()
+			f := strings.Fields(l[2:])
+			kind, sending, rejected = f[0], false, len(f) > 1 && f[1] == "0"
+		case l == "a=sendonly" || l == "a=sendrecv":
+			sending = true
+		}
+	}
+	flush()
+	sort.Strings(out)
+	return out
 }
